@@ -163,6 +163,28 @@ func nvarModelCheck(c core.Case, r *rt) []core.Check {
 			cs = append(cs, core.Check{Tag: "M", What: "nvar-dir-save", Req: "nvdirsave " + c.Args["store"], Exp: exp, Sig: "nvar-dir-save"})
 		}
 	}
+	// (follow-up wp-c07c) the tree-level round trip with the store inside the tree: C10's parser / assembler as the
+	// NVAR hooks of the tree model (`c10Hooks`), the loaded stores under `c10DirHooks` — direct save, extract +
+	// ParseDir + Assemble (+ Save), and the hypotheses of the theorems *_nvar of Props/C07.lean
+	imgHex := core.Hex(r.in)
+	expDirect := r.directClass
+	if r.directClass == "ok" {
+		expDirect = digLen(r.direct)
+	}
+	cs = append(cs, core.Check{Tag: "M", What: "nvar-tree-direct-save", Req: "nvrt direct " + imgHex, Exp: expDirect, Sig: "nvar-tree-direct"})
+	if r.pdClass == "ok" {
+		expDs := r.dsClass
+		if r.dsClass == "ok" {
+			expDs = digLen(r.out)
+		}
+		cs = append(cs, core.Check{Tag: "M", What: "nvar-tree-dir-save", Req: "nvrt ds " + imgHex, Exp: expDs, Sig: "nvar-tree-ds"})
+		cs = append(cs, core.Check{Tag: "M", What: "nvar-tree-load-assemble", Req: "nvrt load " + imgHex, Exp: expDs, Sig: "nvar-tree-load"})
+	}
+	expHyp := "ok"
+	if c.Kind == "nvar-nonutf8name" {
+		expHyp = "no:nvUtf8Tree"
+	}
+	cs = append(cs, core.Check{Tag: "M", What: "nvar-theorem-hypotheses-hold", Req: "nvrt hyp " + imgHex, Exp: expHyp, Sig: "nvar-tree-hyp"})
 	return append(cs, []core.Check{
 		{Tag: "M", What: "nvar-extract-listing", Req: "nvlisting " + c.Args["store"],
 			Exp: fmt.Sprintf("ok %d:%016x", len(ws), core.FNV([]byte(listingText(ws)))), Sig: "nvar-listing"},
